@@ -63,7 +63,7 @@ Proof. vm_compute. reflexivity. Qed.
    sequence of drains of the sink hands out (whole slices before the pending header's slice: a particular drain schedule, so
    the "any drain schedule" quantifier above covers it).  This discharges, for the models, the assumption "OwningIovec delivers
    appended bytes in order with backfilled placeholders" under which C01 / C02 / C07 / C09 are stated. *)
-From WP Require hcobs.SinkSim iovec.Geo iovec.GeoSink.
+From WP Require hcobs.SinkSim iovec.Geo iovec.GeoRefine iovec.GeoLag iovec.GeoSink iovec.Pipe iovec.PipeProofs.
 Theorem C09_geo_sink_push m s h g bs h' g' :
   GeoSink.GS m s h g -> Geo.push h (Geo.SExt bs) g = Some (h', g') -> GeoSink.GS m (s_push s bs) h' g'.
 Proof. exact (GeoSink.geo_sink_push m s h g bs h' g'). Qed.
@@ -84,6 +84,19 @@ Theorem C09_geo_sink_read m s h g n g' out :
   GeoSink.GS m s h g -> Geo.read h n g = Some (g', out) ->
   exists ks, GeoSink.GS m (fold_left s_drain ks s) h g' /\ taken (fold_left s_drain ks s) = taken s ++ out.
 Proof. exact (GeoSink.geo_sink_read m s h g n g' out). Qed.
+(* the slice-level lag: with a sink-level lag of L cells from the first pending header on (at most 2 + max(mi, ms) by
+   C09_encoder_prefix_and_lag), fewer than L + (length of the one slice that holds that header) buffered bytes are not
+   consumable, and that slice, an arena slice, fits in the bytes written to its chunk *)
+Theorem C09_geo_slice_lag m s h g : GeoSink.GS m s h g ->
+  exists p, GeoRefine.R h g p /\ PipeProofs.Inv p /\
+    GeoLag.cell_lag p = length (cells s) - length (stable (cells s)) /\
+    match Geo.gbackrefs g with
+    | [] => GeoLag.slice_lag p = 0
+    | _ => exists t, nth_error (Geo.gslices g) (Pipe.stable_count p) = Some t /\
+                     GeoLag.slice_lag p < GeoLag.cell_lag p + N.to_nat (Geo.sl_len t) /\
+                     (forall c off len, t = Geo.SArena c off len -> (len <= Geo.nlen (Geo.cdata (Geo.chunk_at h c)))%N)
+    end.
+Proof. exact (GeoSink.geo_sink_lag m s h g). Qed.
 Theorem C09_geo_sink_init m : GeoSink.GS m s_empty [] Geo.empty_iov.
 Proof. exact (GeoSink.GS_empty m). Qed.
 
@@ -92,6 +105,7 @@ Print Assumptions C09_geo_sink_push.
 Print Assumptions C09_geo_sink_register.
 Print Assumptions C09_geo_sink_backfill.
 Print Assumptions C09_geo_sink_read.
+Print Assumptions C09_geo_slice_lag.
 Print Assumptions C09_encoder_complete.
 Print Assumptions C09_decoder_prefix.
 Print Assumptions C09_encoder_lag_prod.
